@@ -78,6 +78,10 @@ def chords_cyl(g, s, e):
     a = d[0] * d[0] + d[1] * d[1]
     b = 2 * (s[0] * d[0] + s[1] * d[1])
     if a > 0:
+        # the point of closest approach to the axis: where a line tangent to a ring border touches it (a midpoint must
+        # never sit exactly there: its ring index would be decided by rounding)
+        if 0 < -b / (2 * a) < 1:
+            cuts.add(-b / (2 * a))
         for i in range(g["shape"][0] + 1):
             R = g["rmin"] + i * g["dr"]
             c = s[0] * s[0] + s[1] * s[1] - R * R
@@ -161,7 +165,7 @@ def check_segment(impl, g, c, stats, rng=None, periodic=True):
         return fails
     stats["rays"] += 1
     tot = sum(e_id)
-    if abs(tot - L) > EPS * max(L, 1.0):
+    if abs(tot - L) > EPS * L:
         fails.append(dict(info, claim="with every cell active the entries sum to the length of the chord", sum=tot, expected=L))
     # A path that runs inside a cell face up to rounding (constant coordinate within 1e-9 of a border without being
     # exactly on it, e.g. fl(3 * dz) for a non-dyadic dz) belongs to either neighbour: the per-cell comparison is
@@ -188,7 +192,7 @@ def check_segment(impl, g, c, stats, rng=None, periodic=True):
         ex = float(chord.get(k, 0) * Fraction(L)) if kind == "cart" else chord.get(k, 0.0) * L
         dev = abs(e_id[k] - ex)
         stats["cells_compared"] += 1
-        if dev > 2 * dt + EPS * max(L, 1.0) and (worst is None or dev > worst[0]):
+        if dev > 2 * dt + EPS * L and (worst is None or dev > worst[0]):
             worst = (dev, k, e_id[k], ex)
     if worst:
         fails.append(dict(info, claim="each cell's entry differs from the exact chord length in that cell by at most two integration steps",
@@ -208,7 +212,7 @@ def check_segment(impl, g, c, stats, rng=None, periodic=True):
             want[vm[k]] += e_id[k]
     stats["merged"] += 1
     for sidx in range(bins):
-        if abs(e_vm[sidx] - want[sidx]) > EPS * max(L, 1.0):
+        if abs(e_vm[sidx] - want[sidx]) > EPS * L:
             fails.append(dict(info, claim="each source's entry equals the sum of the entries of its cells under the one-source-per-cell "
                                           "map (cells mapped to -1 / outside the mask receive nothing"
                                           + ("; periodic grid = 360-degree grid with the tiled map)" if geom is not g else ")"),
@@ -216,7 +220,7 @@ def check_segment(impl, g, c, stats, rng=None, periodic=True):
             break
     if "out" in c and "init" in c and len(c["init"]) == bins and not c.get("err"):
         for sidx in range(bins):
-            if abs(c["out"][sidx] - c["init"][sidx] - e_vm[sidx]) > EPS * max(L, 1.0, abs(c["init"][sidx])):
+            if abs(c["out"][sidx] - c["init"][sidx] - e_vm[sidx]) > EPS * max(L, abs(c["init"][sidx])):
                 fails.append(dict(info, claim="the entries are added to the spectrum that was passed in", source=sidx,
                                   before=c["init"][sidx], after=c["out"][sidx], entry=e_vm[sidx]))
                 break
@@ -231,7 +235,7 @@ def check_segment(impl, g, c, stats, rng=None, periodic=True):
                 runs += 1
         prev = a
     act = float(act * Fraction(L)) if kind == "cart" else act * L
-    if not degenerate and abs(sum(e_vm) - act) > 2 * dt * runs + EPS * max(L, 1.0):
+    if not degenerate and abs(sum(e_vm) - act) > 2 * dt * runs + EPS * L:
         fails.append(dict(info, claim="the entries sum to the length of the chord inside the active cells", sum=sum(e_vm),
                           chord_in_active_cells=act, active_runs=runs, dt=dt))
     # P5: periodic image
@@ -243,7 +247,7 @@ def check_segment(impl, g, c, stats, rng=None, periodic=True):
         m12 = [float(M[i, j]) for i in range(3) for j in range(4)]
         e_rot, err = impl.call(kind, g["_mat_vm"], c["step"], c["min_samples"], m12, c["p0"], c["p1"], [0.0] * bins)
         stats["periodic"] += 1
-        if err or max(abs(a - b) for a, b in zip(e_rot, e_vm)) > 1e-7 * max(L, 1.0):
+        if err or max(abs(a - b) for a, b in zip(e_rot, e_vm)) > 1e-7 * L:
             fails.append(dict(info, claim="a cylindrical grid repeats with its angular period: the ray rotated by a multiple of the "
                                           "period gives the same entries", rotation_deg=k * g["period"], entries=e_vm, rotated=e_rot))
     return fails
@@ -361,7 +365,7 @@ def search_other_periods(impl, rng, count, stats):
             e360, _ = impl.call("cyl", mat360, step, 2, m12, p0, p1, [0.0] * (max(vm) + 1))
             eP, _ = impl.call("cyl", impl.material(g, vm=vm), step, 2, m12, p0, p1, [0.0] * (max(vm) + 1))
             stats["periodic"] += 1
-            if max(abs(a - b) for a, b in zip(e360, eP)) > 1e-7 * max(L, 1.0):
+            if max(abs(a - b) for a, b in zip(e360, eP)) > 1e-7 * L:
                 fails.append({"claim": "a periodic cylindrical grid equals the 360-degree grid whose voxel map is the periodic tiling",
                               "grid": {k: v for k, v in g.items() if not k.startswith("_")}, "p0": p0, "p1": p1, "step": step,
                               "periodic": eP, "tiled": e360})
@@ -612,4 +616,105 @@ def search_pipeline_histories(impl, rng, count, stats, gen_grid):
                         fails.append(dict(info, claim="pipeline matrix of a sight line: " + f["claim"], detail={k: v for k, v in f.items() if k in ("sum", "chord_in_active_cells", "tolerance")}))
             if len(fails) > 3:
                 return fails
+    return fails
+
+
+# ---------------------------------------------------------------------------------------------
+# entry points of the anchored files that the main path does not reach
+# ---------------------------------------------------------------------------------------------
+def search_second_order(impl, rng, count, stats, gen_grid):
+    """invert_voxel_map, the mask getter, default integrators / steps (argument omitted vs given explicitly), the wrapper
+    properties of RayTransferObject, the pipelines' kind setter, and the emitters' emission_function driven by raysect's
+    own NumericalIntegrator (entries = chord in the active cells, to the accuracy of that integrator)."""
+    from raysect.optical import World, Ray, Point3D, Vector3D, translate
+    from raysect.optical.material import NumericalIntegrator
+    from cherab.tools.raytransfer import (RayTransferBox, RayTransferCylinder, RayTransferPipeline0D, RayTransferPipeline1D,
+                                          RayTransferPipeline2D, CartesianRayTransferEmitter, CylindricalRayTransferEmitter)
+    from cherab.tools.raytransfer.emitters import CartesianRayTransferIntegrator, CylindricalRayTransferIntegrator
+    fails = []
+
+    def bad(claim, **kw):
+        fails.append(dict(kw, claim=claim))
+    for i in range(count):
+        kind = "cart" if i % 2 == 0 else "cyl"
+        g = gen_grid(rng, kind, True, False)
+        shape = tuple(g["shape"])
+        ncells = shape[0] * shape[1] * shape[2]
+        B = rng.randint(1, max(1, ncells // 2))
+        vm = np.array([rng.randint(-1, B - 1) for _ in range(ncells)], dtype=np.int32).reshape(shape)
+        vm.flat[rng.randrange(ncells)] = B - 1
+        world = World()
+        explicit = rng.random() < 0.5
+        if kind == "cart":
+            dmin = min(g["steps"])
+            kw = dict(step=0.1 * dmin) if explicit else {}
+            obj = RayTransferBox(g["ext"][0], g["ext"][1], g["ext"][2], shape[0], shape[1], shape[2], voxel_map=vm, parent=world, **kw)
+            cell = (obj.material.dx, obj.material.dy, obj.material.dz)
+            emitter = CartesianRayTransferEmitter(shape, tuple(g["steps"]))
+            want_cls, want_step = CartesianRayTransferIntegrator, 0.1 * min(g["steps"])
+            size, centre = max(g["ext"]), [e / 2 for e in g["ext"]]
+        else:
+            dmin = min((g["rmax"] - g["rmin"]) / shape[0], g["zmax"] / shape[2])
+            kw = dict(step=0.1 * dmin) if explicit else {}
+            obj = RayTransferCylinder(g["rmax"], g["zmax"], shape[0], shape[2], radius_inner=g["rmin"], n_polar=g["nphi"],
+                                      period=float(g["period"]), voxel_map=vm, parent=world, **kw)
+            cell = (obj.material.dr, obj.material.dz)
+            emitter = CylindricalRayTransferEmitter(shape, (g["dr"], float(g["dphi"]), g["dz"]), rmin=g["rmin"])
+            want_cls, want_step = CylindricalRayTransferIntegrator, 0.1 * min(g["dr"], g["dz"])
+            size, centre = 2 * g["rmax"] + g["zmax"], [0.0, 0.0, g["zmax"] / 2]
+        stats["second_order"] = stats.get("second_order", 0) + 1
+        info = {"grid": {k: v for k, v in g.items() if not k.startswith("_")}, "voxel_map": vm.ravel().tolist(), "explicit_step": explicit}
+        # defaults
+        if obj.step != 0.1 * min(cell):
+            bad("default integration step of a ray-transfer object is 0.1 * (smallest cell size), given or omitted", step=obj.step,
+                expected=0.1 * min(cell), **info)
+        if type(emitter.integrator) is not want_cls or emitter.integrator.step != want_step or emitter.integrator.min_samples != 2:
+            bad("an emitter built without an integrator gets its own ray-transfer integrator with step 0.1 * (smallest cell size)",
+                got=[type(emitter.integrator).__name__, emitter.integrator.step, emitter.integrator.min_samples], **info)
+        # wrapper properties
+        if obj.bins != int(vm.max()) + 1 or obj.bins != obj.material.bins or not np.array_equal(obj.voxel_map, vm) \
+                or not np.array_equal(obj.mask, vm > -1) or obj.parent is not world:
+            bad("RayTransferObject.bins / voxel_map / mask / parent reflect the material", bins=obj.bins, **info)
+        inv = obj.invert_voxel_map()
+        ok = len(inv) == obj.bins
+        for sidx in range(obj.bins if ok else 0):
+            got = sorted(zip(*[a.tolist() for a in inv[sidx]]))
+            want = sorted(c for c in np.ndindex(*shape) if vm[c] == sidx)
+            ok = ok and got == want
+        if not ok:
+            bad("invert_voxel_map lists, for every source, exactly the cells mapped to it", **info)
+        obj.step = 2 * obj.step
+        if obj.material.integrator.step != obj.step:
+            bad("RayTransferObject.step sets the step of the integrator", **info)
+        # emission_function through raysect's NumericalIntegrator
+        nstep = 0.02 * dmin
+        obj.material.integrator = NumericalIntegrator(step=nstep)
+        gchk = dict(g, vm=[int(v) for v in vm.ravel()], traces=[])
+        if kind == "cyl":
+            gchk["dr"], gchk["dz"] = obj.material.dr, obj.material.dz
+        for _ in range(2):
+            d = [rng.gauss(0, 1) for _ in range(3)]
+            nd = math.sqrt(sum(x * x for x in d))
+            d = [x / nd for x in d]
+            tgt = [centre[k] + rng.uniform(-0.2, 0.2) * size for k in range(3)]
+            org = [tgt[k] - d[k] * 2 * size for k in range(3)]
+            sp = Ray(origin=Point3D(*org), direction=Vector3D(*d), min_wavelength=500., max_wavelength=501., bins=obj.bins).trace(world)
+            res = [float(x) for x in sp.samples]
+            gchk["traces"].append({"origin_local": org, "dir_local": d, "result": res, "last_out": res, "step": nstep})
+        for f in search_traced(impl, gchk, stats):
+            bad("emission_function integrated by raysect's NumericalIntegrator: " + f["claim"],
+                detail={k: v for k, v in f.items() if k in ("sum", "chord_in_active_cells", "tolerance", "trace")}, **info)
+    # the kind setter of the pipelines
+    for cls in (RayTransferPipeline0D, RayTransferPipeline1D, RayTransferPipeline2D):
+        p = cls()
+        ok = p.kind == "power"
+        p.kind = "RADIANCE"
+        ok = ok and p.kind == "radiance"
+        try:
+            p.kind = "total"
+            ok = False
+        except ValueError:
+            ok = ok and p.kind == "radiance"
+        if not ok:
+            bad("pipeline kind: default 'power', case-insensitive, anything else rejected and the kind kept", pipeline=cls.__name__)
     return fails
